@@ -1286,8 +1286,158 @@ func c04Carried(p *Prog, r *Report, rule string, withCoverage bool) {
 		if !withCoverage {
 			continue
 		}
+		// start coverage: a reader that positions its day counter from the first record's date (so a file may begin
+		// in mid-year) leaves the days before that record without data.  Either the reader itself rejects a first
+		// record later than the first simulated day, or it hands the first covered day to the run routine, which
+		// compares it with the start day and ends the run before the model is initialised.
+		if pos, fld := c04FirstRecordPositioning(info, loop); pos != nil {
+			okStart, det := false, "the day counter is positioned from the first record's date, the days before it hold no data, and nothing compares that day with the first simulated day: a file that begins after the simulation start is accepted and the days before its first record are simulated with all-zero weather"
+			if fld != "" {
+				if where := c04RunRejectsLateStart(p, fld); where != "" {
+					okStart, det = true, fmt.Sprintf("the first covered day is handed over in %s and the run routine ends the run when it lies after the first simulated day (%s), before the model is initialised", fld, where)
+				} else {
+					det = fmt.Sprintf("the first covered day is stored in %s but the run routine does not compare it with the start day before initialising the model", fld)
+				}
+			}
+			r.Ob(short(key)+":covers-start", p.Pos(pos.Pos()), okStart, det)
+		}
 		r.Ob(short(key)+":covers", p.Pos(loop.End()), covers, fmt.Sprintf("after the read loop the reader rejects data that end before they are needed (end of the year file / end of the simulation): %v — otherwise the year length becomes the last day read, the day loop turns to the next year early and every later day is driven by another date's record", covers))
 	}
+}
+
+// c04FirstRecordPositioning finds, in a read loop, "if first { …; T = <record>.YearDay(); … }" and returns that
+// assignment plus the name of a field of the shared weather record that the same block assigns from the counter or
+// from the record's day of the year ("" when there is none).
+func c04FirstRecordPositioning(info *types.Info, loop *ast.ForStmt) (ast.Node, string) {
+	var pos ast.Node
+	fld := ""
+	ast.Inspect(loop.Body, func(n ast.Node) bool {
+		ifs, ok := n.(*ast.IfStmt)
+		if !ok {
+			return true
+		}
+		id, ok := ifs.Cond.(*ast.Ident)
+		if !ok {
+			return true
+		}
+		if b, isB := info.TypeOf(id).Underlying().(*types.Basic); !isB || b.Kind() != types.Bool {
+			return true
+		}
+		yearDay := func(e ast.Expr) bool {
+			f := false
+			ast.Inspect(e, func(m ast.Node) bool {
+				if c, ok := m.(*ast.CallExpr); ok {
+					if se, ok := c.Fun.(*ast.SelectorExpr); ok && se.Sel.Name == "YearDay" {
+						f = true
+					}
+				}
+				return true
+			})
+			return f
+		}
+		var counter types.Object
+		for _, st := range ifs.Body.List {
+			as, ok := st.(*ast.AssignStmt)
+			if !ok || len(as.Lhs) != 1 || len(as.Rhs) != 1 {
+				continue
+			}
+			if l, ok := as.Lhs[0].(*ast.Ident); ok && yearDay(as.Rhs[0]) {
+				counter = info.Uses[l]
+				pos = as
+			}
+		}
+		if counter == nil {
+			return true
+		}
+		for _, st := range ifs.Body.List {
+			as, ok := st.(*ast.AssignStmt)
+			if !ok || len(as.Lhs) != 1 || len(as.Rhs) != 1 {
+				continue
+			}
+			se, ok := as.Lhs[0].(*ast.SelectorExpr)
+			if !ok {
+				continue
+			}
+			sel, ok := info.Selections[se]
+			if !ok || sel.Kind() != types.FieldVal {
+				continue
+			}
+			fromCounter := yearDay(as.Rhs[0])
+			if r, ok := as.Rhs[0].(*ast.Ident); ok && info.Uses[r] == counter {
+				fromCounter = true
+			}
+			if fromCounter {
+				name, _ := namedStruct(sel.Recv())
+				fld = name + "." + se.Sel.Name
+			}
+		}
+		return true
+	})
+	return pos, fld
+}
+
+// c04RunRejectsLateStart: in the run routine, before the call of Init, "if <x>.<fld> > g.ITAG { return …error }"
+// (either orientation).  Returns the position, "" when absent.
+func c04RunRejectsLateStart(p *Prog, fld string) string {
+	fi := p.Funcs["hermes.HermesSession.Run"]
+	if fi == nil {
+		return ""
+	}
+	info := fi.Pkg.TypesInfo
+	fieldName := func(e ast.Expr) string {
+		se, ok := e.(*ast.SelectorExpr)
+		if !ok {
+			return ""
+		}
+		sel, ok := info.Selections[se]
+		if !ok || sel.Kind() != types.FieldVal {
+			return ""
+		}
+		name, _ := namedStruct(sel.Recv())
+		return name + "." + se.Sel.Name
+	}
+	var initPos token.Pos
+	ast.Inspect(fi.Decl.Body, func(n ast.Node) bool {
+		if c, ok := n.(*ast.CallExpr); ok && initPos == 0 {
+			if id, ok := c.Fun.(*ast.Ident); ok {
+				if f, ok := info.Uses[id].(*types.Func); ok && f.Name() == "Init" && f.Pkg() != nil && f.Pkg().Name() == "hermes" {
+					initPos = c.Pos()
+				}
+			}
+		}
+		return true
+	})
+	where := ""
+	ast.Inspect(fi.Decl.Body, func(n ast.Node) bool {
+		ifs, ok := n.(*ast.IfStmt)
+		if !ok || ifs.Init != nil || (initPos != 0 && ifs.Pos() > initPos) {
+			return true
+		}
+		be, ok := ifs.Cond.(*ast.BinaryExpr)
+		if !ok {
+			return true
+		}
+		l, rr := fieldName(be.X), fieldName(be.Y)
+		late := (l == fld && rr == "GlobalVarsMain.ITAG" && be.Op == token.GTR) || (l == "GlobalVarsMain.ITAG" && rr == fld && be.Op == token.LSS)
+		if !late || len(ifs.Body.List) == 0 {
+			return true
+		}
+		if rs, ok := ifs.Body.List[len(ifs.Body.List)-1].(*ast.ReturnStmt); ok && len(rs.Results) > 0 {
+			if id, ok := rs.Results[len(rs.Results)-1].(*ast.Ident); !ok || id.Name != "nil" {
+				// unconditional apart from the enclosing weather-format independent blocks: accept any nesting that
+				// does not mention the weather format
+				conds, _ := astPathConds(info, fi.Decl.Body, ifs)
+				for _, c := range conds {
+					if strings.Contains(types.ExprString(c.E), "WeatherFileFormat") {
+						return true
+					}
+				}
+				where = p.Pos(ifs.Pos())
+			}
+		}
+		return true
+	})
+	return where
 }
 
 // disjuncts flattens nested "or".
